@@ -784,7 +784,7 @@ def run_confirmed(wire, scns, cases, extra_fail=None):
     res = W.run_scenarios(wire, scns, timeout=90)
     for i, (scn, c) in enumerate(zip(scns, cases)):
         probs = monitors(res[i], c) or (extra_fail(res[i], c) if extra_fail else [])
-        if not probs:
+        if not probs or c.get("no_retry"):
             continue
         for k in range(2):
             time.sleep(1.5)
@@ -1102,7 +1102,8 @@ def foreign_name_cases():
     for vn in ("cache", "all"):
         for lab, hb in items.items():
             for stay in (True, False):
-                out.append(dict(variant=vn, label="foreign_%s_%s_%s" % (lab, vn, "victim_stays" if stay else "victim_left"), bytes=hb, stay=stay))
+                out.append(dict(variant=vn, label="foreign_%s_%s_%s" % (lab, vn, "victim_stays" if stay else "victim_left"), bytes=hb, stay=stay,
+                                no_retry=lab.startswith("sql_")))
     return out
 
 
